@@ -49,6 +49,7 @@ class VttCue:
     right = "right"
 
   _EOL_SEQ_RE = re.compile(r"\n{2,}")
+  _TAG_RE = re.compile(r"<[^>]*>")
 
   def __init__(self, identifier: Optional[int] = None):
     self._id: int = identifier
@@ -101,8 +102,9 @@ class VttCue:
     self._textalign = textalign
 
   def is_only_whitespace_or_empty(self):
-    """Returns whether the paragraph text contains only whitespace or is empty"""
-    return len(self._text) == 0 or self._text.isspace()
+    """Returns whether the paragraph text, without its tags, contains only whitespace or is empty"""
+    text = VttCue._TAG_RE.sub("", self._text)
+    return len(text) == 0 or text.isspace()
 
   def normalize_eol(self):
     """Remove line breaks at the beginning and end of the paragraph, and replace
